@@ -225,6 +225,10 @@ pub struct Substream {
     current_frame_size: Option<usize>,
 
     size_vec: BytesMut,
+
+    /// Set once an invalid frame length has been received. The framing is lost at that point so
+    /// the stream is terminated instead of interpreting the bytes that follow.
+    read_failed: bool,
 }
 
 impl fmt::Debug for Substream {
@@ -266,6 +270,7 @@ impl Substream {
             pending_out_frames: VecDeque::new(),
             pending_out_frame: None,
             size_vec: BytesMut::zeroed(10),
+            read_failed: false,
         }
     }
 
@@ -577,6 +582,10 @@ impl Stream for Substream {
                     }
                 }
                 ProtocolCodec::UnsignedVarint(max_size) => {
+                    if this.read_failed {
+                        return Poll::Ready(None);
+                    }
+
                     loop {
                         // return all pending frames first
                         if let Some(frame) = this.pending_frames.pop_front() {
@@ -637,17 +646,20 @@ impl Stream for Substream {
 
                                         match read_payload_size(&this.size_vec[..this.offset]) {
                                             Err(ReadError::NotEnoughBytes) => continue,
-                                            Err(_) =>
+                                            Err(_) => {
+                                                this.read_failed = true;
                                                 return Poll::Ready(Some(Err(
                                                     SubstreamError::ReadFailure(Some(
                                                         this.substream_id,
                                                     )),
-                                                ))),
+                                                )));
+                                            }
                                             Ok((size, num_bytes)) => {
                                                 debug_assert_eq!(num_bytes, this.offset);
 
                                                 if let Some(max_size) = max_size {
                                                     if size > max_size {
+                                                        this.read_failed = true;
                                                         return Poll::Ready(Some(Err(
                                                             SubstreamError::ReadFailure(Some(
                                                                 this.substream_id,
